@@ -201,6 +201,11 @@ def run(res, rng, tier, model_ok, replay=None):
                 continue                      # known finding D18 (re-confirmed separately)
             cases.append({"line": "detect %s" % data.hex(), "klass": "corpus-" + ext, "key": f,
                           "pred": (lambda obs, ext=ext: None if obs == ext else "corpus file classified as " + obs)})
+            # the same content under a file name with another format's extension
+            for other_ext in ("vcd", "fst", "ghw"):
+                if other_ext != ext and os.path.getsize(f) < 60000:
+                    cases.append({"line": "detectx %s %s" % (data.hex(), other_ext), "klass": "corpus-misnamed-" + ext, "key": (f, other_ext),
+                                  "pred": (lambda obs, ext=ext: None if obs == ext else "misnamed corpus file classified as " + obs)})
             cases.append({"line": "detectc %s" % data.hex(), "klass": "corpus-cursor-" + ext,
                           "pred": (lambda obs, ext=ext, f=f: None if (obs == "ok:" + ext or (obs == "err:" + ext and "with_errors" in f)
                                                                        or "ghdl_issue_538" in f)
